@@ -114,6 +114,50 @@ def run(ctx):
                f'fold-time kernels {sorted(short(k) for k in kc)}; not used at run time: {extra}; DataValue::cast delegates: {deleg}')
         ctx.functions_analysed.update(b.name for b in ev)
 
+    # R9: a NULL short-cut in constant folding must not apply to AND / OR
+    R9 = 'C14-R9'
+    ctx.rule(R9, 'constant folding has no NULL semantics of its own for AND / OR: where eval_constant returns NULL for a binary '
+                 'operator because an operand is NULL without calling the kernel, that short-cut is behind a dispatch on the operator '
+                 'with separate AND and OR arms, and those arms inspect the other operand before they can yield NULL '
+                 '(FALSE AND NULL = FALSE, TRUE OR NULL = TRUE; every other binary operator is strict)')
+    if ctx.anchor(R9, 'planner::rules::expr::eval_constant', ec is not None):
+        bsw = [(i, bl['term']) for i, bl in enumerate(ec.blocks) if bl['term']['k'] == 'switch' and bl['term'].get('adt') == 'std::option::Option'
+               and any(c.dest['l'] == (bl['term'].get('on') or {}).get('l') for c in ec.calls if (c.fn or '').endswith('Expr::binary_op'))]
+        kern = [c.bb for c in ec.calls if re.search(r'ArrayImpl>?::binary_op$', c.fn or '')]
+        if ctx.anchor(R9, 'eval_constant: binary-operator arm', bsw and kern):
+            i, t = bsw[0]
+            names = t.get('variants', {})
+            some_t = [tgt for v, tgt in t['targets'] if names.get(str(v)) == 'Some']
+            none_t = [tgt for v, tgt in t['targets'] if names.get(str(v)) == 'None'] + ([t['otherwise']] if t.get('otherwise') is not None else [])
+            region = ec.reachable_from(some_t, avoid=set(none_t) - set(some_t))
+            nulls = sorted({bb for bb, st in ec.aggregates('types::value::DataValue', 'Null') if bb in region
+                            and bb not in ec.reachable_from(kern)})
+            opsw = {}
+            for j, bl in enumerate(ec.blocks):
+                tt = bl['term']
+                if j in region and tt['k'] == 'switch' and tt.get('adt') == 'sqlparser::ast::BinaryOperator':
+                    nm = tt.get('variants', {})
+                    arms = {nm.get(str(v)): tgt for v, tgt in tt['targets']}
+                    if 'And' in arms and 'Or' in arms and arms['And'] != arms['Or'] and tt.get('otherwise') not in (arms['And'], arms['Or']):
+                        opsw[j] = arms
+            if not nulls:
+                ctx.ob(R9, 'eval_constant·no-null-shortcut', True, 'eval_constant has no NULL short-cut for binary operators: the kernels decide')
+            else:
+                undispatched = sorted(ec.reachable_from(some_t, avoid=set(opsw) | set(none_t)) & set(nulls))
+                valsw = {j for j, bl in enumerate(ec.blocks) if bl['term']['k'] == 'switch' and bl['term'].get('adt') == 'types::value::DataValue'}
+                blind = []
+                for j, arms in opsw.items():
+                    for v in ('And', 'Or'):
+                        start = [arms[v]] if arms[v] not in valsw else []
+                        if set(ec.reachable_from(start, avoid=valsw | set(none_t))) & set(nulls):
+                            blind.append((v, j))
+                ctx.ob(R9, 'eval_constant·null-shortcut-excludes-and/or', not undispatched and not blind and bool(opsw),
+                       f'NULL short-cut blocks {nulls}; operator dispatches with AND/OR arms at {sorted(opsw)}; reachable without a dispatch: '
+                       f'{undispatched}; AND/OR arms that yield NULL without looking at the other operand: {blind}',
+                       [site(ec, b_) for b_ in nulls],
+                       what='eval_constant folds `x AND NULL` / `x OR NULL` to NULL for every x: `select null and false` returns NULL '
+                            '(SQL: false), `select null or true` returns NULL (SQL: true)')
+
     R5 = 'C14-R5'
     ctx.rule(R5, 'ArrayImpl::cast: numeric narrowing never uses a truncating/saturating `as` cast (IntToInt to a narrower '
                  'type, FloatToInt); out-of-range values must go through a checked conversion that yields ConvertError::Overflow')
